@@ -469,6 +469,16 @@ func (s *Seq) checkSearch(q *Query, mode string, limit int, tagOv, ctx string) {
 			s.checkTop(got, exp, ord, mode == "revlimit", ctx)
 			s.stat("limit-checked")
 		}
+		// a search is a value: collecting it again returns the same objects
+		again, err := sr.Collect()
+		if err != nil || len(again) != len(objs) {
+			s.fail("order", "second-collect-differs", "%s: Limit(%d) collected %d objects, collecting the same search again %d (%v)", ctx, limit, len(objs), len(again), err)
+		}
+		for i := range again {
+			if s.recOf(again[i], tag, ctx) != got[i] {
+				s.fail("order", "second-collect-differs", "%s: the second collection of the same search returns other objects", ctx)
+			}
+		}
 	case "expects":
 		// the expected-count helpers: right count passes, wrong count poisons the search
 		n := len(exp)
@@ -539,6 +549,14 @@ func (s *Seq) checkSearch(q *Query, mode string, limit int, tagOv, ctx string) {
 		}
 		if ord != "" {
 			s.checkTop([]int{l}, exp, ord, false, ctx)
+		}
+		// One does not consume the search
+		if n := sr.Len(); n != len(exp) {
+			s.fail(tag, "wrong-len", "%s: Len after One is %d, expected %d", ctx, n, len(exp))
+		}
+		all, err := sr.Collect()
+		if err != nil || len(all) != len(exp) {
+			s.fail("order", "collect-after-one", "%s: Collect after One on the same search returned %d objects of %d matches (%v)", ctx, len(all), len(exp), err)
 		}
 	}
 }
